@@ -4,6 +4,7 @@
 From Coq Require Import Reals ZArith QArith Qreals List Bool.
 From Coquelicot Require Import Coquelicot.
 From PT Require Import Dec Py IExpr ActEval ActEvalSound DecayTime C15Proofs.
+From PT Require C15Check.   (* the comparison rules the tie runs: kept in the build of this file *)
 Import ListNotations.
 Open Scope R_scope.
 
